@@ -51,7 +51,7 @@ CLAIMED = {
     technique="Lean 4 proof (list induction over positions; sub-sequence and membership characterisations) + model/implementation correspondence on real files",
     design="7/C20"),
   "C08": dict(
-    text="Lean 4 model of the whole graph construction (window clipping, node creation, the DFS enter/exit state machine over the C03 token order with its closure variables, the kernel loop with launch-delay / kernel-kernel / Stream Sync / Context Sync edges and CUDA-event based synchronisation (launch table, cudaEventRecord -> previous launch, cudaStreamWaitEvent -> next launch, pending GPU->GPU dependencies, Event Sync edges), the weight helper, edge attribution, networkx's edge replacement) that reproduces the implementation's edge set exactly on every generated trace. Theorems: C08_nodes_two_per_event, C08_edge_weight_rule (every edge weighs the time difference of its endpoints or 0; dependency and sync edges 0), C08_callstack_edges_forward (for any time-sorted token list the DFS emits only forward edges; invariant over the closure state) with sortToks_time_sorted, C08_forward_of_descs, C08_weights_nonneg (forward + weight rule => no negative weight), C08_kernel_edge_types (launch edge: start of the linked runtime call -> start of its kernel; kernel-kernel: end of the last kernel of the stream; sync: end of a stream's last kernel -> end of the waiting host call, end of the kernel an event stands for -> end of cudaEventSynchronize, or -> start of the kernel a Stream Wait Event made wait), C08_kernel_edges_forward (for EVERY causally consistent processing order - structure Causal: work starts after its launch, stream order, blocking syncs return after the awaited work, event waits respected - every edge the kernel loop emits points forward in time; loop invariant KInv), C08_checkTopo_sound (a graph passing the rank certificate has no cycle). Per run, the proved checkers (topological certificate, weights, forward, types) are evaluated in Lean on the implementation's own graph, alongside full model/implementation equality and a Python oracle.",
+    text="Lean 4 model of the whole graph construction (window clipping, node creation, the DFS enter/exit state machine over the C03 token order with its closure variables, the kernel loop with launch-delay / kernel-kernel / Stream Sync / Context Sync edges and CUDA-event based synchronisation (launch table, cudaEventRecord -> previous launch, cudaStreamWaitEvent -> next launch, pending GPU->GPU dependencies, Event Sync edges), the weight helper, edge attribution, networkx's edge replacement) that reproduces the implementation's edge set exactly on every generated trace. Theorems: C08_nodes_two_per_event, C08_edge_weight_rule (every edge weighs the time difference of its endpoints or 0; dependency and sync edges 0), C08_callstack_edges_forward (for any time-sorted token list the DFS emits only forward edges; invariant over the closure state) with sortToks_time_sorted, C08_forward_of_descs, C08_weights_nonneg (forward + weight rule => no negative weight), C08_kernel_edge_types (launch edge: start of the linked runtime call -> start of its kernel; kernel-kernel: end of the last kernel of the stream; sync: end of a stream's last kernel -> end of the waiting host call, end of the kernel an event stands for -> end of cudaEventSynchronize, or -> start of the kernel a Stream Wait Event made wait), C08_kernel_edges_forward (for EVERY causally consistent processing order - structure Causal: work starts after its launch, stream order, blocking syncs return after the awaited work, event waits respected - every edge the kernel loop emits points forward in time; loop invariant KInv), C08_edges_join_analysed_events (both endpoints of every edge are nodes of analysed events of the window), C08_prevLaunch_spec / C08_nextLaunch_spec (what a recorded CUDA event stands for: the last launch onto its stream before the record; which kernel waits: the first launch of the calling thread onto the waiting stream after the call), C08_checkTopo_sound (a graph passing the rank certificate has no cycle). Per run, the proved checkers (topological certificate, weights, forward, types) are evaluated in Lean on the implementation's own graph, alongside full model/implementation equality and a Python oracle.",
     note=TB + "Partial: acyclicity is certified per run by the proved checker on the implementation's graph (a topological rank) rather than proved for all inputs; that the pandas sort of the kernel loop yields a causally consistent order is exercised by the correspondence, the theorem takes such an order as hypothesis; ties between host calls of different threads at one microsecond are not generated for event records / stream waits; the queue-length series (C14) and the links (C02) are inputs of the model.",
     technique="Lean 4 proof (state-machine invariants, certificate-checker soundness) + exact model/implementation graph correspondence",
     design="7/C08"),
